@@ -42,13 +42,19 @@ class Table:
         return {dec(s['cat']): dec(s['alt']) for s in self.rows[tuple(cfg)]['sel']}
 
 
-def _rest(ctx):
-    """context facts without the keys the call site gives explicitly (no duplicate keyword arguments)"""
-    return {k: v for k, v in ctx.items() if k not in ('got', 'want', 'want_count', 'operator_key', 'want_set', 'want_id')}
-
-
-def _mm(out, key, match, **detail):
-    out.append(dict(key=key, detail=detail, match=match))
+def _mm(out, key, match, *context, **detail):
+    """Record one mismatch.  `detail` = what the call site states explicitly; `context` = dictionaries of
+    surrounding facts (the step being replayed, what _state_mismatch found, ...).  The merge can never fail
+    and never loses a value: a context key that is already present with ANOTHER value is kept under
+    `context.<key>` (a step context and a call site may both know a `want`, a `got`, a `step` ...)."""
+    merged = dict(detail)
+    for ctx in context:
+        for k, v in (ctx or {}).items():
+            kk = k
+            while kk in merged and merged[kk] != v:
+                kk = 'context.' + kk
+            merged.setdefault(kk, v)
+    out.append(dict(key=key, detail=merged, match=match))
 
 
 def _values(expr, db, betas):
@@ -99,9 +105,9 @@ def check_table(args):
             continue
         for cat in cats:
             names = [m.name for m in cat.named_expressions]
-            if names != c['alts'] or cat.controlled_by.controller_name != c['name'] \
+            if names != node['names'] or cat.controlled_by.controller_name != c['name'] \
                     or list(cat.controlled_by.specification_names) != c['alts']:
-                _mm(out, 'shape:catalog', dict(kind='shape', **facts), catalog=node['name'], members=names, want_members=c['alts'],
+                _mm(out, 'shape:catalog', dict(kind='shape', **facts), catalog=node['name'], members=names, want_members=node['names'],
                     controller=cat.controlled_by.controller_name, want_controller=c['name'])
     for name, objs in real.controllers.items():
         n += 1
@@ -154,7 +160,7 @@ def check_table(args):
         bad = _state_mismatch(real, tab, cfg, 'configure_catalogs')
         n += 1
         if bad:
-            _mm(out, 'select:' + bad['what'], dict(kind='select', **facts), **bad)
+            _mm(out, 'select:' + bad['what'], dict(kind='select', **facts), bad)
         # value of the configured formula = value the specification computes = hand-written formula
         want_vals = [float(v) for v in row['vals']]
         got_vals = _values(real.expr, db, betas)
@@ -178,7 +184,7 @@ def check_table(args):
             cc.set_configuration_from_id(text)
             bad = _state_mismatch(real, tab, cfg, 'set_configuration_from_id')
             if bad:
-                _mm(out, 'id:apply:' + bad['what'], f, text=text, **bad)
+                _mm(out, 'id:apply:' + bad['what'], f, bad, text=text)
         # parse(print) = identity on the printed form
         if Configuration.from_string(conf.get_string_id()).get_string_id() != conf.get_string_id():
             _mm(out, 'id:roundtrip', f, id=conf.get_string_id())
@@ -196,7 +202,7 @@ def check_table(args):
                 _mm(out, 'iterate:value', dict(kind='iterate', **facts), configuration=cid, got=got_vals, want=want_vals)
             bad = _state_mismatch(real, tab, tab.cfg_of[cid], 'iteration')
             if bad:
-                _mm(out, 'iterate:' + bad['what'], dict(kind='iterate', **facts), **bad)
+                _mm(out, 'iterate:' + bad['what'], dict(kind='iterate', **facts), bad)
     if sorted(visited) != tab.ids:
         _mm(out, 'iterate:visits', dict(kind='iterate', **facts), got=sorted(visited), want=tab.ids)
     return dict(n=n, mismatches=out, configurations=len(cfgs))
@@ -215,9 +221,14 @@ def _reach(st: Struct, cfg, k: int, d: int):
     return res
 
 
-def replay_path(st: Struct, tab: Table, path: dict, pidx: int, patch=None):
-    """-> (evaluations, mismatches, stats)"""
+VIAS = ('expression', 'central', 'index', 'name', 'second')
+
+
+def replay_path(st: Struct, tab: Table, path: dict, pidx: int, patch=None, values_from=None, db=None):
+    """-> (evaluations, mismatches, stats, last configuration, real objects).
+    `values_from`: the value of the configured formula is compared after every step from that index on."""
     from biogeme.configuration import Configuration, SelectionTuple
+    from biogeme.controller import CentralController
 
     out = []
     n = 0
@@ -232,28 +243,48 @@ def replay_path(st: Struct, tab: Table, path: dict, pidx: int, patch=None):
     stats = {}
     bad0 = _state_mismatch(real, tab, cur, 'initial state')
     if bad0:
-        _mm(out, 'initial:' + bad0['what'], dict(kind='initial', **facts), **bad0)
+        _mm(out, 'initial:' + bad0['what'], dict(kind='initial', **facts), bad0)
     for sidx, step in enumerate(path['steps']):
         op = step['op']
         want = tuple(step['cfg'])
         want_id = tab.id_of[want]
         f = dict(kind='operator', op=op, **facts)
+        given = tuple(step.get('from', cur))   # the configuration an operator is given to start from
         ctx = dict(step_index=sidx, op=op, a=step['a'], b=step['b'], dir=step['dir'], step=step['step'], circular=step['circ'],
-                   before=tab.id_of[cur], want=want_id)
+                   before=tab.id_of[cur], want=want_id, via=step.get('via', ''), given=tab.id_of[given])
         n += 1
+
+        def start_config():
+            # the CURRENT configuration as the central controller reports it, or the one the caller holds
+            if given == cur and (pidx + sidx) % 2 == 0:
+                return cc.get_configuration()
+            return Configuration.from_string(tab.id_of[given])
+
         if op == 'setindex':
             name, k = names[step['a'] - 1], step['b']
-            which = (pidx + sidx) % 4
-            if which == 0:
+            via = step.get('via', 'any')
+            if via not in VIAS:
+                via = VIAS[(pidx + sidx) % len(VIAS)]
+            ctx['via'] = via
+            if via == 'expression':
                 real.expr.select_expression(name, k)
-            elif which == 1:
+            elif via == 'central':
                 cc.set_controller(name, k)
-            elif which == 2:
+            elif via == 'index':
                 cc.dict_of_controllers[name].set_index(k)
-            else:
+            elif via == 'name':
                 cc.dict_of_controllers[name].set_name(st.ctrls[step['a'] - 1]['alts'][k])
+            else:
+                # a second central controller on the same formula: built beside the first one, or installed as
+                # the formula's central controller (real.cc remains the first; both are read after every step)
+                if (pidx + sidx) % 2:
+                    second = CentralController(expression=real.expr)
+                else:
+                    second = real.expr.set_central_controller()
+                second.set_controller(name, k)
         elif op == 'setconf':
-            sels = [SelectionTuple(controller=nm, selection=st.ctrls[k]['alts'][want[k]]) for k, nm in enumerate(names)]
+            asked = tab.cfg_of[dec(step['text'])] if step.get('text') else want   # the configuration that is asked for
+            sels = [SelectionTuple(controller=nm, selection=st.ctrls[k]['alts'][asked[k]]) for k, nm in enumerate(names)]
             if (pidx + sidx) % 2:
                 real.expr.configure_catalogs(Configuration(sels))
             else:
@@ -265,7 +296,7 @@ def replay_path(st: Struct, tab: Table, path: dict, pidx: int, patch=None):
                 _mm(out, 'id:parse', dict(kind='configuration', **facts), text=text, got=conf.get_string_id(), want=want_id)
             cc.set_configuration_from_id(text)
         elif op in ('inc', 'dec', 'pair'):
-            before = cc.get_configuration()
+            before = start_config()
             s = step['step']
             if op == 'inc':
                 key = f'Increase {names[step["a"] - 1]}'
@@ -278,20 +309,20 @@ def replay_path(st: Struct, tab: Table, path: dict, pidx: int, patch=None):
                 direct = cc.two_controllers(first_controller_name=names[step['a'] - 1], second_controller_name=names[step['b'] - 1],
                                             direction=step['dir'], current_config=before, step=s)
             if direct[0].get_string_id() != want_id:
-                _mm(out, f'operator:{op}:method', f, **_rest(ctx), got=direct[0].get_string_id())
+                _mm(out, f'operator:{op}:method', f, ctx, got=direct[0].get_string_id())
             if key not in ops:
-                _mm(out, "operator:missing", f, **_rest(ctx), operator_key=key)
+                _mm(out, "operator:missing", f, ctx, operator_key=key)
             else:
                 new, ret = ops[key](before, s)
                 if new.get_string_id() != want_id:
-                    _mm(out, f'operator:{op}', f, **_rest(ctx), got=new.get_string_id(), operator_key=key)
+                    _mm(out, f'operator:{op}', f, ctx, got=new.get_string_id(), operator_key=key)
                 if ret != step['ret'] or direct[1] != step['ret']:
-                    _mm(out, f'operator:{op}:count', dict(kind='count', op=op, **facts), **_rest(ctx), got=ret, want_count=step['ret'])
+                    _mm(out, f'operator:{op}:count', dict(kind='count', op=op, **facts), ctx, got=ret, want_count=step['ret'])
                 if new not in cc.all_configurations:
-                    _mm(out, f'operator:{op}:closure', f, **_rest(ctx), got=new.get_string_id())
+                    _mm(out, f'operator:{op}:closure', f, ctx, got=new.get_string_id())
         elif op in ('sevinc', 'sevdec'):
             key = 'Increase_several' if op == 'sevinc' else 'Decrease_several'
-            before = cc.get_configuration()
+            before = start_config()
             allowed = {tuple(a) for a in step['allowed']}
             k = step['ret']
             d = 1 if op == 'sevinc' else -1
@@ -304,23 +335,23 @@ def replay_path(st: Struct, tab: Table, path: dict, pidx: int, patch=None):
                 got_id = new.get_string_id()
                 got = tab.cfg_of.get(got_id)
                 if got is None or new not in cc.all_configurations:
-                    _mm(out, f'operator:{op}:closure', f, **_rest(ctx), got=got_id)
+                    _mm(out, f'operator:{op}:closure', f, ctx, got=got_id)
                     continue
                 seen.add(got)
                 if ret != k:
-                    _mm(out, f'operator:{op}:count', dict(kind='count', op=op, **facts), **_rest(ctx), got=ret, want_count=k)
+                    _mm(out, f'operator:{op}:count', dict(kind='count', op=op, **facts), ctx, got=ret, want_count=k)
                 if got not in allowed:
-                    right = got in _reach(st, cur, k, d)
-                    wrong = got in _reach(st, cur, k, -d)
+                    right = got in _reach(st, given, k, d)
+                    wrong = got in _reach(st, given, k, -d)
                     clause = 'repeated-controller' if right else ('direction' if wrong else 'other')
-                    _mm(out, f'operator:{op}:{clause}', dict(kind='several', op=op, clause=clause, **facts), **_rest(ctx), got=got_id,
+                    _mm(out, f'operator:{op}:{clause}', dict(kind='several', op=op, clause=clause, **facts), ctx, got=got_id,
                         allowed=sorted(tab.id_of[a] for a in allowed), try_index=t)
                 if got == want:
                     reached = True
                     break
             stats['several_tries'] = stats.get('several_tries', 0) + t + 1
             if not reached:
-                _mm(out, f'operator:{op}:never-produced', dict(kind='several', op=op, clause='never-produced', **facts), **ctx,
+                _mm(out, f'operator:{op}:never-produced', dict(kind='several', op=op, clause='never-produced', **facts), ctx,
                     tries=SEVERAL_TRIES, seen=sorted(tab.id_of[a] for a in seen))
                 cc.set_configuration(Configuration.from_string(want_id))
         elif op == 'modify':
@@ -333,16 +364,24 @@ def replay_path(st: Struct, tab: Table, path: dict, pidx: int, patch=None):
             visited = [str(e.current_configuration()) for e in real.expr]
             n += len(visited)
             if sorted(visited) != tab.ids:
-                _mm(out, 'iterate:visits', dict(kind='iterate', **facts), got=sorted(visited), want=tab.ids, **ctx)
+                _mm(out, 'iterate:visits', dict(kind='iterate', **facts), ctx, got=sorted(visited), want=tab.ids)
             last = tab.cfg_of.get(visited[-1]) if visited else None
             if last is None:
                 break
             want = last  # the order of the visit is free: the configuration left behind is the last one visited
         bad = _state_mismatch(real, tab, want, f'after step {sidx} ({op})')
         if bad:
-            _mm(out, f'state:{op}:' + bad['what'], f, **_rest(ctx), **{k_: v for k_, v in bad.items() if k_ != 'want'})
+            _mm(out, f'state:{op}:' + bad['what'], f, bad, ctx)
             # re-synchronise so that one defect is reported once per path, not at every later step
-            cc.set_configuration(Configuration.from_string(tab.id_of[want]))
+            for name_, k_ in zip(names, want):
+                cc.dict_of_controllers[name_].set_index(k_)
+        elif values_from is not None and sidx >= values_from:
+            want_vals = [float(v) for v in tab.rows[want]['vals']]
+            got_vals = _values(real.expr, db, real.beta_values())
+            n += 1
+            if got_vals != want_vals:
+                _mm(out, f'value:after-step:{op}', dict(kind='value', path='after-step', op=op, struct=st.label), ctx,
+                    configuration=tab.id_of[want], got=got_vals, want=want_vals)
         cur = want
     return n, out, stats, cur, real
 
@@ -350,13 +389,14 @@ def replay_path(st: Struct, tab: Table, path: dict, pidx: int, patch=None):
 def replay_paths(args):
     """A batch of paths of one structure.  The value of the configured formula is compared at the
     end of every `value_every`-th path."""
-    st, tab, paths, base, value_every, patch = args
+    st, tab, paths, base, value_every, patch = args[:6]
+    values_from = args[6] if len(args) > 6 else None
     n = 0
     out = []
     stats = {}
     db = database(st)
     for j, path in enumerate(paths):
-        k, mm, s, cur, real = replay_path(st, tab, path, base + j, patch)
+        k, mm, s, cur, real = replay_path(st, tab, path, base + j, patch, values_from, db)
         n += k
         for key, v in s.items():
             stats[key] = stats.get(key, 0) + v
@@ -368,11 +408,163 @@ def replay_paths(args):
                 _mm(mm, 'value:after-path', dict(kind='value', path='after-operators', struct=st.label), configuration=tab.id_of[cur],
                     got=got_vals, want=want_vals)
         for m in mm[:6]:
-            m['detail']['path'] = [(s_['op'], s_['a'], s_['b'], s_['dir'], s_['step'], s_['circ']) for s_ in path['steps']]
+            m['detail']['path'] = [(s_['op'], s_['a'], s_['b'], s_['dir'], s_['step'], s_['circ'], s_.get('via', ''), s_.get('from'))
+                                   for s_ in path['steps']]
         out += mm[:6]
     return dict(n=n, mismatches=out, stats=stats, paths=len(paths))
 
 
 def path_key(label: str, path: dict) -> str:
     return label + ':' + ';'.join(
-        f"{s['op']},{s['a']},{s['b']},{s['dir']},{s['step']},{int(s['circ'])},{''.join(map(str, s['cfg']))},{dec(s['text'])}" for s in path['steps'])
+        f"{s['op']},{s['a']},{s['b']},{s['dir']},{s['step']},{int(s['circ'])},{''.join(map(str, s['cfg']))},{dec(s['text'])},"
+        f"{s.get('via', '')},{''.join(map(str, s.get('from', [])))}" for s in path['steps'])
+
+
+# ------------------------------------------------------------------------------------- (c) order of the member names
+def check_order(args):
+    """One structure whose catalogs share a controller, with the verdict of the specification
+    (`refused`: some catalog lists the names in another order than the controller).
+    refused by the library (BiogemeError)          -> agrees with `refused`, disagrees with `accepted`;
+    accepted by the library                        -> the whole table of the specification (written for the reading
+                                                      "a selection designates the member of that NAME") must hold:
+                                                      every catalog presents the member with the matching name, the
+                                                      configured formula has the value of the hand-written one."""
+    st, tab, patch = args
+    from biogeme.exceptions import BiogemeError
+
+    if patch:
+        patch()
+    out = []
+    verdict = tab.meta['verdict']
+    facts = dict(kind='order', struct=st.label, verdict=verdict)
+    info = dict(verdict=verdict, misordered=sorted(dec(c) for c in tab.meta['misordered']))
+    try:
+        Real(st)
+        built, err = True, None
+    except BiogemeError as exc:
+        built, err = False, ('BiogemeError', str(exc)[:300])
+    except Exception as exc:  # noqa: BLE001 -- any other exception is itself a finding
+        built, err = False, (type(exc).__name__, str(exc)[:300])
+    n = 1
+    if not built:
+        if err[0] != 'BiogemeError':
+            _mm(out, 'order:wrong-exception', dict(clause='wrong-exception', **facts), info, got=err, want='BiogemeError or a structure that works by name')
+        elif verdict != 'refused':
+            _mm(out, 'order:well-formed-structure-refused', dict(clause='well-formed-refused', **facts), info, got=err, want=verdict)
+        return dict(n=n, mismatches=out, outcome='refused', configurations=0)
+    res = check_table((st, tab, None))
+    n += res['n']
+    if verdict == 'refused':
+        # accepted although the documented rule refuses it: only tolerable if it then works BY NAME
+        for m in res['mismatches']:
+            _mm(out, 'order:accepted:' + m['key'], dict(clause='accepted-but-not-by-name', table_key=m['key'], **facts), info, m['detail'],
+                what='the structure is accepted although a catalog lists the names of its controller in another order, and the '
+                     'catalogs of that controller do not present the member with the matching name')
+    else:
+        out += res['mismatches']
+    return dict(n=n, mismatches=out, outcome='accepted', configurations=res['configurations'])
+
+
+# ------------------------------------------------------------------------------------- (a) one Configuration object
+READERS = ('get_string_id', 'str', 'repr', 'selections', 'equality', 'roundtrip', 'get_selection')
+
+
+def replay_confobj(args):
+    """Histories of ONE Configuration object (ConfSpec): create / read / assign, with the observables the
+    specification expects after each step (identifier, sorted pairs, equality with an object built from each
+    selection of the set)."""
+    st, csels, paths, base, patch = args
+    from biogeme.configuration import Configuration, SelectionTuple
+
+    if patch:
+        patch()
+    names = [c['name'] for c in st.ctrls]
+    out = []
+    n = 0
+
+    def tuples(sel):
+        return [SelectionTuple(controller=names[c], selection=st.ctrls[c]['alts'][v]) for c, v in enumerate(sel) if v >= 0]
+
+    def build(sel, how):
+        lst = tuples(sel)
+        if how == 0:
+            return Configuration(lst)
+        if how == 1:
+            return Configuration(list(reversed(lst)))
+        if how == 2:
+            return Configuration.from_dict({t.controller: t.selection for t in reversed(lst)})
+        return Configuration(t for t in lst)
+
+    for j, path in enumerate(paths):
+        pidx = base + j
+        fresh = [build(sel, 0) for sel in csels]   # one independent object per selection of the set
+        obj = None
+        mm = []
+        history = [(s['op'], s['sel']) for s in path['steps']]
+
+        def read(step, sidx, where):
+            nonlocal n
+            want_id = dec(step['id'])
+            pairs = [(dec(p['ctrl']), dec(p['alt'])) for p in step['pairs']]
+            f = dict(kind='confobj', struct=st.label)
+            ctx = dict(step_index=sidx, where=where, history=history[:sidx + 1], want=want_id)
+            start = (pidx + sidx) % len(READERS)
+            for reader in READERS[start:] + READERS[:start]:
+                n += 1
+                if reader == 'get_string_id':
+                    got = obj.get_string_id()
+                    if got != want_id:
+                        _mm(mm, 'confobj:get_string_id', dict(reader=reader, **f), ctx, got=got)
+                elif reader == 'str':
+                    if str(obj) != want_id:
+                        _mm(mm, 'confobj:str', dict(reader=reader, **f), ctx, got=str(obj))
+                elif reader == 'repr':
+                    if repr(obj) != repr(want_id):
+                        _mm(mm, 'confobj:repr', dict(reader=reader, **f), ctx, got=repr(obj), want=repr(want_id))
+                elif reader == 'selections':
+                    got = [tuple(t) for t in obj.selections]
+                    if got != pairs or obj.set_of_controllers() != {p[0] for p in pairs}:
+                        _mm(mm, 'confobj:selections', dict(reader=reader, **f), ctx, got=got, want=pairs)
+                elif reader == 'equality':
+                    for k, (other, same) in enumerate(zip(fresh, step['eq'])):
+                        got = (obj == other, other == obj, obj in {other}, other in {obj}, hash(obj) == hash(other))
+                        ok = all(got) if same else not any(got[:4])
+                        if not ok:
+                            _mm(mm, 'confobj:equality', dict(reader=reader, **f), ctx, other=other.get_string_id(), want_equal=same,
+                                got=dict(zip(('obj==other', 'other==obj', 'obj in {other}', 'other in {obj}', 'same hash'), got)))
+                            break
+                elif reader == 'roundtrip':
+                    back = Configuration.from_string(str(obj))
+                    got = (back.get_string_id(), [tuple(t) for t in back.selections])
+                    if got != (want_id, pairs) or back != obj or hash(back) != hash(obj):
+                        _mm(mm, 'confobj:roundtrip', dict(reader=reader, **f), ctx, got=got, want=(want_id, pairs), equal_to_object=(back == obj))
+                else:
+                    want_sel = {nm: None for nm in names}
+                    want_sel.update(dict(pairs))
+                    got = {nm: obj.get_selection(nm) for nm in names}
+                    if got != want_sel:
+                        _mm(mm, 'confobj:get_selection', dict(reader=reader, **f), ctx, got=got, want=want_sel)
+
+        last = None
+        for sidx, step in enumerate(path['steps']):
+            op = step['op']
+            how = (pidx + sidx) % 4
+            if op == 'create':
+                obj = build(step['sel'], how)
+            elif op == 'empty':
+                obj = Configuration()
+            elif op == 'assign':
+                lst = tuples(step['sel'])
+                obj.selections = lst if how % 2 == 0 else list(reversed(lst))
+            elif op == 'read':
+                read(step, sidx, 'ReadId step')
+            last = step
+            n += 1
+        if last is not None and last['set'] and last['op'] != 'read':
+            read(last, len(path['steps']) - 1, 'after the last step')
+        out += mm[:4]
+    return dict(n=n, mismatches=out, paths=len(paths))
+
+
+def confobj_key(label: str, path: dict) -> str:
+    return label + ':confobj:' + ';'.join(f"{s['op']}{''.join(map(str, s['sel']))}" for s in path['steps'])
